@@ -57,7 +57,7 @@ func scriptStyleInput(cs *core.Case, env *Env) string {
 			b.WriteString("<b>" + mg.next(r) + "</b>")
 			continue
 		}
-		name := gen.Pick(r, []string{"script", "style", "SCRIPT", "Style", "sCrIpT", "STYLE", "scrİpt", "ſcript", "ſtyle", "sKript", "script\x00", "scripts", "xscript", "style2"})
+		name := gen.Pick(r, []string{"script", "style", "SCRIPT", "Style", "sCrIpT", "STYLE", "scrİpt", "ſcript", "ſtyle", "sKript", "script\x00", "scripts", "xscript", "style2", "scr\xffipt", "sty\xffle", "\xffscript", "x:script", "svg:style"})
 		attrs := gen.Pick(r, []string{"", "", " type=\"text/javascript\"", " src=http://evil.example/x.js", " x", " id=a class=b", "\n", "/x", " type=text/css media=all", " href=x",
 			" type=\"application/json\"", " type=application/ld+json", " type=module", " type=\"text/template\"", " type=text/plain", " type=\"\"", " TYPE=Application/JSON id=data", " type=importmap", " type=speculationrules",
 			" nomodule", " async defer", " language=javascript", " nonce=abc", " integrity=sha384-x crossorigin=anonymous", " media=print", " scoped", " title=alt", " type=\"text/x-handlebars-template\" id=t", " src=data.json type=application/json", " x=\"application/json\""})
@@ -168,6 +168,8 @@ func runC05(ctx *core.Ctx) {
 	worst := [][]spec.Op{
 		{{K: spec.KNew}, {K: spec.KAllowElements, Names: []string{"script", "style", "b"}}, {K: spec.KAllowNoAttrs, Scope: "els", Names: []string{"script", "style"}},
 			{K: spec.KAllowAttrs, Attrs: []string{"src", "type", "x"}, Scope: "els", Names: []string{"script", "style"}}, {K: spec.KKeep, Names: []string{"script", "style"}}},
+		{{K: spec.KNew}, {K: spec.KStdURLs}, {K: spec.KRewrite, Check: "proxy"}, {K: spec.KAllowElements, Names: []string{"script", "style", "b", "img"}}, {K: spec.KAllowAttrs, Attrs: []string{"src", "href", "type"}, Scope: "els", Names: []string{"script", "style", "img"}},
+			{K: spec.KAllowAttrs, Attrs: []string{"src"}, Scope: "global"}, {K: spec.KSwitch, Names: []string{spec.SwCrossOrigin}, B: true}},
 		{{K: spec.KNew}, {K: spec.KAllowNoAttrs, Scope: "match", ElRe: `.*`}, {K: spec.KAllowAttrs, Attrs: []string{"src", "x"}, Scope: "match", ElRe: `.*`}, {K: spec.KKeep, Names: []string{"script", "style"}},
 			{K: spec.KComments}, {K: spec.KSwitch, Names: []string{spec.SwAddSpaces}, B: true}},
 	}
